@@ -14,15 +14,15 @@ def units(tier, seed):
         f = [(n, m) for n in (1, 2, 3, 4, 5, 6) for m in (1, 2, 3)] + [(3, 4), (2, 4)]
         t = _mk.QUICK_TABLES
     else:
-        f = [(n, m) for n in range(1, 11) for m in (1, 2, 3)] + [(n, 4) for n in range(1, 7)] + [(2, 5), (3, 5)]
+        f = [(n, m) for n in range(1, 9) for m in (1, 2, 3)] + [(n, 4) for n in range(1, 6)] + [(2, 5), (3, 5)]
         t = _mk.THOROUGH_TABLES
     shapes = set(f) | {(m, n) for n, m in f}
     us = gen.kernel_units(shapes)
     for n, m in f:
         us.append({'name': f'fcbo {n}x{m}', 'fn': 'unit_fcbo', 'args': {'n': n, 'm': m, 'which': 'fcbo'},
-                   'split': 6 if m >= 3 else 0})
+                   'split': (9 if n * m >= 15 else 6) if m >= 3 else 0})
         us.append({'name': f'fcbo_dual {m}x{n}', 'fn': 'unit_fcbo', 'args': {'n': m, 'm': n, 'which': 'dual'},
-                   'split': 6 if m >= 3 else 0})
+                   'split': (9 if n * m >= 15 else 6) if m >= 3 else 0})
     us += _mk.table_units(t)
     us += _mk.inductive_units(tier) + _mk.skeleton_kernel_units(tier, seed) + _mk.skeleton_units(tier, seed)
     return _mk.order(us)
